@@ -102,7 +102,26 @@ def check_numbering(body, K3):
         fl = [e for e in pl.p if e['k'] == 'f']
         if fl and fl[-1]['n'] == 'index' and fl[-1]['o'] == 'adlt::dlt::DltMessage' and pl.p[-1]['k'] == 'f':
             e = E.rvalue(s.rv)
-            out.append('A' if is_self_index(e) else 'A_bad')
+            good = is_self_index(e)
+            if not good and isinstance(e, tuple) and e[0] == 'place' and len(e) == 2:
+                # `let assigned = self.index; ..; msg.index = assigned;`: a named copy taken before the increment (wherever the
+                # increment sits relative to the store: the copy keeps the pre-increment value)
+                ls_ = body.locals_named(e[1])
+                sd_ = cfg.single_def(ls_[0]) if len(ls_) == 1 else None
+                if sd_ is not None and sd_[1] != 'call' and is_self_index(E.rvalue(sd_[2].rv)):
+                    incs = []
+                    for xb in body.blocks:
+                        if xb.cleanup:
+                            continue
+                        for xi, xs in enumerate(xb.stmts):
+                            if xs.k == 'assign' and E.target(xs.place) == ('place', 'self', '*', '.index'):
+                                incs.append((xb.i, xi))
+                    dblk = body.blocks[sd_[0]]
+                    di = dblk.stmts.index(sd_[2]) if sd_[2] in dblk.stmts else -1
+                    after_inc = any((ib == sd_[0] and ii < di) or (ib != sd_[0] and sd_[0] in cfg.reachable_from(ib)) for (ib, ii) in incs)
+                    if di >= 0 and not after_inc:
+                        good = True
+            out.append('A' if good else 'A_bad')
         # self.index = ...
         if E.target(pl) == ('place', 'self', '*', '.index'):
             e = E.rvalue(s.rv)
